@@ -212,12 +212,13 @@ Proof.
   unfold create_active. destruct (s_active s) as [a|] eqn:E; cbn [fst]; [apply good_refl|apply good_ensure_active].
 Qed.
 
-Lemma good_restore_active s : good s (fst (restore_active s)).
+Lemma good_restore_active s : good s (fst (restore_active K s)).
 Proof.
   unfold restore_active. destruct (s_active s) as [a|] eqn:E; cbn [fst]; [apply good_refl|].
   destruct (pop_last (s_closed s)) as [[b c]|] eqn:P; cbn [fst]; [|apply good_refl].
-  apply good_same; [|reflexivity]. rewrite !bio_eq, E. cbn [upd_closed upd_active s_closed s_active oa].
-  rewrite (pop_last_cb _ _ _ P), app_nil_r. reflexivity.
+  apply good_F2; [|reflexivity]. rewrite !bio_eq, E. cbn [upd_closed upd_active s_closed s_active oa].
+  rewrite (pop_last_cb _ _ _ P), app_nil_r.
+  apply Forall2_app; [apply F2_refl|]. constructor; [apply bext_load_index|constructor].
 Qed.
 
 Lemma good_worker s f : (forall s, good s (fst (f s))) -> good s (worker s f).
@@ -319,7 +320,7 @@ Proof.
   - pose proof (good_close_active s) as H1. destruct (close_active s) as [s' e].
     cbn [fst] in *. apply (good_trans _ _ _ H1), good_request_dump.
   - pose proof (good_create_active s) as H1. destruct (create_active s) as [s' e]. exact H1.
-  - pose proof (good_restore_active s) as H1. destruct (restore_active s) as [s' e]. exact H1.
+  - pose proof (good_restore_active s) as H1. destruct (restore_active K s) as [s' e]. exact H1.
   - cbn [fst]. apply (good_trans _ (worker s close_active)); [|apply good_request_dump].
     apply good_worker, good_close_active.
   - cbn [fst]. apply good_worker, good_create_active.
